@@ -48,6 +48,13 @@ def run(chk, repo):
     assemble_rules(chk, repo, "R11.3")
     sterile(chk, repo)
     writers_registered(chk, repo)
+    # the positions append() hands back are what the terminals' allocate()
+    # methods report as the place of their process data: decided on
+    # allocated groups (shared with C18)
+    from . import c18
+    chk.doc("R18.6", "reported positions are the datagrams' (shared with "
+                     "C18)")
+    c18.allocation_semantic(chk, repo)
 
 
 def consts(repo):
@@ -850,6 +857,10 @@ def sterile(chk, repo):
             got2 = ev_.call(ev_.getattr(me, "sterile"), [5, 0x88b5])
             got3 = ev_.call(ev_.getattr(me, "sterile"), [5],
                             {"ethertype": 0x88b5})
+            # ... and the frame assembled afterwards is the live one again
+            again = bytes(ev_.call(ev_.getattr(me, "assemble"), [77]))
+            again2 = bytes(ev_.call(ev_.getattr(me, "assemble"),
+                                    [5, 0x88b5]))
         except (Unknown, Raised) as e:
             raise AnalysisError(f"{S}.sterile: cannot be evaluated: {e}")
         want = bytearray(plain)
@@ -870,6 +881,12 @@ def sterile(chk, repo):
                        f"{writers} set to NOP")
         elif [tuple(d) for d in me.fields["data"]] != before:
             bad.append(f"{tag}: the packet itself was changed")
+        elif again != plain or again2 != plain2:
+            bad.append(f"{tag}: assemble() after sterile() no longer gives "
+                       f"the frame it gave before: the sterile frame was "
+                       f"made in place of a frame that assemble() keeps, "
+                       f"and the live frame goes out with NOPs for its "
+                       f"write commands")
     chk.ob("R11.4", S + ".sterile", "writes only NOP, only at recorded "
            "positions, on a copy of assemble()'s output", not bad, st,
            "; ".join(bad[:2]) or f"{len(plans)} packets by abstract "
